@@ -36,6 +36,7 @@ def check(ctx) -> None:
     r184(ctx)
     r186(ctx)
     r187(ctx)
+    r188(ctx)
 
 
 def _unwrap_bytes(e):
@@ -375,3 +376,83 @@ def r187(ctx) -> None:
             f'on which characters represent themselves, e.g. a space after '
             f'a non-ASCII character does not end the base64 run and "café '
             f'menu" is reported as a name that decodes to "cafémenu"')
+
+
+STRING_OBJECTS = ('AString', 'String', 'QuotedString', 'LiteralString',
+                  'Mailbox')
+
+
+def wire_leaks(fnode) -> list:
+    """bytes(<parsed string object>) used as a VALUE in a parser: the wire
+    spelling ('"Subject"', '{7}\\r\\nSubject') instead of the meaning."""
+    objs, lists = set(), set()
+    for s_ in ast.walk(fnode):
+        if isinstance(s_, ast.Assign) and isinstance(s_.value, ast.Call) \
+                and call_name(s_.value) == 'parse' and \
+                isinstance(s_.value.func, ast.Attribute) and \
+                isinstance(s_.targets[0], ast.Tuple) and \
+                isinstance(s_.targets[0].elts[0], ast.Name):
+            owner = txt(s_.value.func.value)
+            if owner in STRING_OBJECTS:
+                objs.add(s_.targets[0].elts[0].id)
+            elif owner == 'List':
+                lists.add(s_.targets[0].elts[0].id)
+    for x in ast.walk(fnode):
+        gens = x.generators if isinstance(x, (ast.ListComp, ast.SetComp,
+                                              ast.GeneratorExp)) else []
+        if isinstance(x, (ast.For,)):
+            gens = [x]
+        for g in gens:
+            it = g.iter
+            base = it.func.value if isinstance(it, ast.Call) and isinstance(
+                it.func, ast.Attribute) else (
+                it.value if isinstance(it, ast.Attribute) else it)
+            if isinstance(base, ast.Name) and base.id in lists and \
+                    isinstance(g.target, ast.Name):
+                objs.add(g.target.id)
+    par = {}
+    for x in ast.walk(fnode):
+        for ch in ast.iter_child_nodes(x):
+            par[ch] = x
+    out = []
+    for c in ast.walk(fnode):
+        if isinstance(c, ast.Call) and call_name(c) == 'bytes' and \
+                isinstance(c.func, ast.Name) and len(c.args) == 1 and \
+                isinstance(c.args[0], ast.Name) and c.args[0].id in objs:
+            up = par.get(c)
+            if isinstance(up, ast.keyword) and up.arg in ('raw', '_raw'):
+                continue
+            if isinstance(up, ast.Call) and len(up.args) >= 2 and \
+                    up.args[1] is c and call_name(up) in ('cls',) :
+                continue            # cls(value, raw): the serialisation cache
+            out.append(c)
+    return out
+
+
+def r188(ctx) -> None:
+    R = ctx.rule('R18.8', 'parsers take string arguments by value, never by '
+                 'their wire spelling', 1)
+    n = 0
+    for f in ctx.proj.all_funcs('pymap/parsing/'):
+        if not (f.name == 'parse' or f.name.startswith('_parse')):
+            continue
+        n += 1
+        for c in wire_leaks(f.node):
+            R.fail(f, c, f'{f.qualname}: {txt(c)} used as a value',
+                   f'`{txt(c)}` is the WIRE spelling of a parsed string '
+                   f'(quotes / literal prefix included), not its value: the '
+                   f'same argument means different things as an atom, a '
+                   f'quoted string or a literal (BODY[HEADER.FIELDS '
+                   f'("Subject")] never matches the Subject header)')
+    if n < 40:
+        raise AnchorError(f'only {n} parse functions found')
+    R.ok(None, None, f'{n} parse functions scanned',
+         'no bytes(<parsed string object>) used as a value')
+    import os
+    from ..report import VERIF
+    fx = os.path.join(VERIF, 'fixtures', 'r188_positive.py')
+    tree = ast.parse(open(fx).read())
+    hits = sum(len(wire_leaks(x)) for x in ast.walk(tree)
+               if isinstance(x, ast.FunctionDef))
+    R.check(hits == 2, None, None, 'positive fixture still matches',
+            f'fixtures/r188_positive.py: {hits} hit(s), expected 2')
